@@ -24,6 +24,7 @@ RULES = [
     Rule('C18.R4', 'a failing bank load stores nothing into synth/setup state before returning', 8),
     Rule('C18.R5', 'every failing path of the four loaders leaves a non-empty error text', 4),
     Rule('C18.R6', 'a callback slot and its user-data slot are re-wired from a matching pair', 12),
+    Rule('C18.R8', 'every chip wrapper hands the requested chip family on to its base (OPN2::reset reads the applied family back from the chip)', 6),
     Rule('C18.R7', 'accepted setting values lie in the documented range; the AUTO volume model resolves to the bank default wherever the live model is set from the setup', 3),
 ]
 EXPLANATION = ('Static CFG + store/mutation-summary analysis of the exported functions of opnmidi.cpp and the player functions they reach: '
@@ -488,6 +489,7 @@ def analyse(facts, tier):
                             why='non-empty error text is stored (literal, or fallback when the loader left none)' if ok else 'failing return without a non-empty error text'))
     obls += r6_pairs(facts)
     obls += r7_ranges(facts)
+    obls += r8_family_forwarded(facts)
     return obls
 
 
@@ -582,4 +584,37 @@ def r7_ranges(facts):
                        'the live volume model is set from the setup without resolving AUTO to the bank default: after setting AUTO the previous explicit model stays in force (setVolumeScaleModel ignores AUTO)'))
     if n < 2:
         raise build.AnalysisBroken('C18.R7: functions deriving the live volume model from the setup not found (%d)' % n)
+    return out
+
+
+def r8_family_forwarded(facts):
+    """opn2_setChipType stores the request; OPN2::reset creates the chips with it and then takes `family = chip->family()` as the applied
+    value the getter reports.  The getter returns the value set only if every constructor on the way (wrapper -> OPNChipBaseBufferedT /
+    OPNChipBaseT -> OPNChipBase::m_family) forwards its OPNFamily parameter unchanged (sibling agreement over all chip wrappers)."""
+    out = []
+    n = 0
+    for fn in facts.all_fns():
+        if not fn.d.get('ctor') or fn.d.get('copyctor') or not fn.relfile().startswith('src/chips/') or fn.relfile().count('/') != 2:
+            continue
+        fam = [p for p in fn.params if 'OPNFamily' in ((p.get('t') or {}).get('s') or '')]
+        if not fam:
+            continue
+        inits = [st['s'] for b, j, st in fn.cfg.stmts() if st['s'].get('k') == 'CtorInit']
+        if not inits and not any(True for _ in fn.cfg.stmts()):
+            continue        # a declaration instantiated without its body in this unit (the defining unit is analysed too)
+        tgt = [i for i in inits if i.get('base') and ('OPNChipBase' in i['base'] or 'OPNChipBase' in (callee_name(strip(i.get('init')) or {}) or ''))] or \
+              [i for i in inits if 'm_family' in show(i)]
+        if not tgt:
+            out.append(Obl('C18.R8', fn.name, 'family parameter forwarded', fn.loc, 'finding', why='the constructor takes an OPNFamily but initialises neither a chip base class nor m_family with it'))
+            n += 1
+            continue
+        for i in tgt:
+            n += 1
+            args = [strip(a) for a in (strip(i.get('init')) or {}).get('a', [])] or [strip(i.get('init'))]
+            ok = any(a is not None and a.get('k') == 'DeclRefExpr' and a.get('id') == fam[0]['id'] for a in args)
+            out.append(Obl('C18.R8', fn.name, 'family parameter forwarded', '%s:%s' % (fn.file, i.get('ln')), 'discharged' if ok else 'finding',
+                           why='base / m_family initialised with the parameter' if ok else
+                           'initialised with %s instead of the requested family: OPN2::reset reads the family back from the chip, so opn2_getChipType() reports (and later resets keep) a chip type the user never set' % show(i)[:50]))
+    if n < 6:
+        raise build.AnalysisBroken('C18.R8: only %d chip constructors with a family parameter found' % n)
     return out
